@@ -2,7 +2,7 @@ CONSTANTS
   NA = 2
   LockOf0 <- L112
   MaxOps = 3
-  MaxSec = 2
+  MaxSec = 1
   Timeouts = TRUE
   Handoff = TRUE
   Eager = FALSE
